@@ -191,8 +191,35 @@ fn memo_for(pool: char, j: usize, value: u64) -> MemoBytes {
 // tiny real commitment trees
 // =================================================================================================
 
-/// Appends `decoys` leaves, then `leaves`, to a fresh shardtree; returns the root and a witness per leaf.
+/// A tiny commitment tree: `decoys` leaves, then `leaves`, then one more decoy.  Returns the root and
+/// the authentication path of every leaf, computed level by level with the pool's own `combine`.
 fn tree_with<H: Hashable + Clone + PartialEq + std::fmt::Debug>(
+    decoy: impl Fn(usize) -> H,
+    decoys: usize,
+    leaves: &[H],
+) -> (H, Vec<incrementalmerkletree::MerklePath<H, 32>>) {
+    let mut level: Vec<H> = (0..decoys).map(&decoy).chain(leaves.iter().cloned()).chain(std::iter::once(decoy(decoys + leaves.len()))).collect();
+    let mut idx: Vec<usize> = (0..leaves.len()).map(|i| decoys + i).collect();
+    let mut paths: Vec<Vec<H>> = vec![vec![]; leaves.len()];
+    for l in 0..32u8 {
+        let lv = incrementalmerkletree::Level::from(l);
+        for (i, pos) in idx.iter_mut().enumerate() {
+            paths[i].push(level.get(*pos ^ 1).cloned().unwrap_or_else(|| H::empty_root(lv)));
+            *pos /= 2;
+        }
+        level = level.chunks(2).map(|c| H::combine(lv, &c[0], c.get(1).unwrap_or(&H::empty_root(lv)))).collect();
+    }
+    let root = level.remove(0);
+    let paths = paths
+        .into_iter()
+        .enumerate()
+        .map(|(i, p)| incrementalmerkletree::MerklePath::from_parts(p, Position::from((decoys + i) as u64)).expect("32 levels"))
+        .collect();
+    (root, paths)
+}
+
+/// The same tree in a shardtree (cross-check of the computation above on a sample of the cases).
+fn tree_with_shardtree<H: Hashable + Clone + PartialEq + std::fmt::Debug>(
     decoy: impl Fn(usize) -> H,
     decoys: usize,
     leaves: &[H],
@@ -204,21 +231,27 @@ fn tree_with<H: Hashable + Clone + PartialEq + std::fmt::Debug>(
     for l in leaves {
         tree.append(l.clone(), Retention::Marked).expect("append");
     }
-    // one more decoy to the right, so that the spent notes are not on the frontier
     tree.append(decoy(decoys + leaves.len()), Retention::Ephemeral).expect("append");
     tree.checkpoint(1u32).expect("checkpoint");
     let root = tree.root_at_checkpoint_depth(Some(0)).expect("root").expect("root present");
     let paths = (0..leaves.len())
-        .map(|i| {
-            let p = tree
-                .witness_at_checkpoint_depth(Position::from((decoys + i) as u64), 0)
-                .expect("witness")
-                .expect("witness present");
-            assert!(p.root(leaves[i].clone()) == root, "harness: witness does not root to the anchor");
-            p
-        })
+        .map(|i| tree.witness_at_checkpoint_depth(Position::from((decoys + i) as u64), 0).expect("witness").expect("witness present"))
         .collect();
     (root, paths)
+}
+
+fn checked_tree<H: Hashable + Clone + PartialEq + std::fmt::Debug>(
+    cross_check: bool,
+    decoy: impl Fn(usize) -> H + Copy,
+    decoys: usize,
+    leaves: &[H],
+) -> (H, Vec<incrementalmerkletree::MerklePath<H, 32>>) {
+    let r = tree_with(decoy, decoys, leaves);
+    if cross_check {
+        let s = tree_with_shardtree(decoy, decoys, leaves);
+        assert!(r.0 == s.0 && r.1 == s.1, "harness: own tree computation disagrees with shardtree");
+    }
+    r
 }
 
 fn rand32(rng: &mut ChaCha20Rng) -> [u8; 32] {
@@ -274,11 +307,81 @@ struct TIn {
     k: usize,
 }
 
-struct ShOut<A, K> {
+struct ShOut<A: 'static, K: 'static> {
     addr: A,
-    ivk: K,
+    ivk: &'static K,
     value: u64,
     memo: MemoBytes,
+}
+
+/// Keys, recipient addresses and decoy leaves are the same for every request: derived once.
+struct OrchardFix {
+    spender: OrchardKeys,
+    from: orchard::Address,
+    decoys: Vec<MerkleHashOrchard>,
+    empty_root: MerkleHashOrchard,
+    recips: Vec<(orchard::Address, orchard::keys::PreparedIncomingViewingKey)>,
+    change: Vec<orchard::Address>,
+    internal_ivk: orchard::keys::PreparedIncomingViewingKey,
+}
+struct SaplingFix {
+    spender: SaplingKeys,
+    decoys: Vec<sapling::Node>,
+    empty_root: sapling::Node,
+    recips: Vec<(sapling::PaymentAddress, sapling::keys::PreparedIncomingViewingKey)>,
+}
+struct Fixtures {
+    s: SaplingFix,
+    o: OrchardFix,
+    i: OrchardFix,
+}
+
+fn orchard_fix(tag: u8, version: orchard::note::NoteVersion) -> OrchardFix {
+    let mut rng = ChaCha20Rng::seed_from_u64(0xC14_0000 + tag as u64);
+    let spender = orchard_keys(tag, 0);
+    let from = spender.fvk.address_at(0u32, orchard::keys::Scope::External);
+    let decoy_addr = orchard_keys(tag + 1, 0).fvk.address_at(0u32, orchard::keys::Scope::External);
+    let decoys: Vec<MerkleHashOrchard> = (0..8).map(|i| orchard_leaf(&orchard_note(&mut rng, decoy_addr, 9 + i as u64, version))).collect();
+    let (empty_root, _) = tree_with(|i| decoys[i % 8].clone(), 3, &[]);
+    let recips = (0..4)
+        .map(|j| {
+            let k = orchard_keys(tag + 2, j);
+            (
+                k.fvk.address_at(j as u32, orchard::keys::Scope::External),
+                orchard::keys::PreparedIncomingViewingKey::new(&k.fvk.to_ivk(orchard::keys::Scope::External)),
+            )
+        })
+        .collect();
+    let change = (0..4).map(|j| spender.fvk.address_at(7 + j as u32, orchard::keys::Scope::Internal)).collect();
+    let internal_ivk = orchard::keys::PreparedIncomingViewingKey::new(&spender.fvk.to_ivk(orchard::keys::Scope::Internal));
+    OrchardFix { spender, from, decoys, empty_root, recips, change, internal_ivk }
+}
+
+fn fixtures() -> &'static Fixtures {
+    static F: std::sync::OnceLock<Fixtures> = std::sync::OnceLock::new();
+    F.get_or_init(|| {
+        let mut rng = ChaCha20Rng::seed_from_u64(0xC14_5A);
+        let decoy_addr = sapling_keys("decoy", 0).addr;
+        let decoys: Vec<sapling::Node> = (0..8)
+            .map(|i| {
+                sapling::Node::from_cmu(
+                    &decoy_addr.create_note(sapling::value::NoteValue::from_raw(5 + i as u64), sapling::Rseed::AfterZip212(rand32(&mut rng))).cmu(),
+                )
+            })
+            .collect();
+        let (empty_root, _) = tree_with(|i| decoys[i % 8].clone(), 2, &[]);
+        let recips = (0..4)
+            .map(|j| {
+                let k = sapling_keys("recipient", j);
+                (k.addr, sapling::keys::PreparedIncomingViewingKey::new(&k.fvk.vk.ivk()))
+            })
+            .collect();
+        Fixtures {
+            s: SaplingFix { spender: sapling_keys("spender", 0), decoys, empty_root, recips },
+            o: orchard_fix(b'o', orchard::note::NoteVersion::V2),
+            i: orchard_fix(b'i', orchard::note::NoteVersion::V3),
+        }
+    })
 }
 
 struct Mat {
@@ -287,16 +390,16 @@ struct Mat {
     zip212: bool,
     tin: Vec<TIn>,
     tout: Vec<(TransparentAddress, Script, u64)>,
-    s_spender: SaplingKeys,
+    s_spender: &'static SaplingKeys,
     s_spends: Vec<(sapling::Note, sapling::MerklePath, u64)>,
     s_anchor: sapling::Anchor,
     s_outs: Vec<ShOut<sapling::PaymentAddress, sapling::keys::PreparedIncomingViewingKey>>,
-    o_spender: OrchardKeys,
+    o_spender: &'static OrchardKeys,
     o_spends: Vec<(orchard::Note, orchard::tree::MerklePath)>,
     o_anchor: orchard::Anchor,
     o_outs: Vec<ShOut<orchard::Address, orchard::keys::PreparedIncomingViewingKey>>,
     o_chg: Vec<ShOut<orchard::Address, orchard::keys::PreparedIncomingViewingKey>>,
-    i_spender: OrchardKeys,
+    i_spender: &'static OrchardKeys,
     i_spends: Vec<(orchard::Note, orchard::tree::MerklePath)>,
     i_anchor: orchard::Anchor,
     i_outs: Vec<ShOut<orchard::Address, orchard::keys::PreparedIncomingViewingKey>>,
@@ -332,7 +435,7 @@ fn make_tin(j: usize, kind: &str, value: u64) -> TIn {
     TIn { kind: kind.to_string(), value, utxo, coin, spend_info, keys, k }
 }
 
-fn materialise(q: &J, rng: &mut ChaCha20Rng) -> Mat {
+fn materialise(q: &J, rng: &mut ChaCha20Rng, cross_check: bool) -> Mat {
     let (height, branch, zip212) = height_of(q["regime"].as_str().unwrap(), q["hsel"].as_u64().unwrap());
     let tin: Vec<TIn> =
         strs(&q["tin"]).iter().zip(u64s(&q["tinV"])).enumerate().map(|(j, (k, v))| make_tin(j, k, v)).collect();
@@ -353,81 +456,54 @@ fn materialise(q: &J, rng: &mut ChaCha20Rng) -> Mat {
         .collect();
 
     // Sapling
-    let s_spender = sapling_keys("spender", 0);
+    let fx = fixtures();
+    let s_spender = &fx.s.spender;
     let s_notes: Vec<sapling::Note> = u64s(&q["sInV"])
         .iter()
         .map(|v| s_spender.addr.create_note(sapling::value::NoteValue::from_raw(*v), sapling::Rseed::AfterZip212(rand32(rng))))
         .collect();
-    let s_leaves: Vec<sapling::Node> = s_notes.iter().map(|n| sapling::Node::from_cmu(&n.cmu())).collect();
-    let decoy_addr = sapling_keys("decoy", 0).addr;
-    let seeds: Vec<[u8; 32]> = (0..8).map(|_| rand32(rng)).collect();
-    let (s_root, s_paths) = tree_with(
-        |i| {
-            sapling::Node::from_cmu(
-                &decoy_addr.create_note(sapling::value::NoteValue::from_raw(5 + i as u64), sapling::Rseed::AfterZip212(seeds[i % 8])).cmu(),
-            )
-        },
-        2,
-        &s_leaves,
-    );
+    let (s_root, s_paths) = if s_notes.is_empty() {
+        (fx.s.empty_root.clone(), vec![])
+    } else {
+        let s_leaves: Vec<sapling::Node> = s_notes.iter().map(|n| sapling::Node::from_cmu(&n.cmu())).collect();
+        checked_tree(cross_check, |i| fx.s.decoys[i % 8].clone(), 2, &s_leaves)
+    };
     let s_spends = s_notes.into_iter().zip(s_paths).zip(u64s(&q["sInV"])).map(|((n, p), v)| (n, p, v)).collect();
     let s_outs = u64s(&q["sOutV"])
         .iter()
         .enumerate()
-        .map(|(j, v)| {
-            let k = sapling_keys("recipient", j);
-            ShOut {
-                addr: k.addr,
-                ivk: sapling::keys::PreparedIncomingViewingKey::new(&k.fvk.vk.ivk()),
-                value: *v,
-                memo: memo_for('s', j, *v),
-            }
-        })
+        .map(|(j, v)| ShOut { addr: fx.s.recips[j].0, ivk: &fx.s.recips[j].1, value: *v, memo: memo_for('s', j, *v) })
         .collect();
 
     // Orchard and Ironwood
-    let pool = |tag: u8, version: orchard::note::NoteVersion, in_v: &J, out_v: &J, chg_v: Option<&J>, rng: &mut ChaCha20Rng| {
-        let spender = orchard_keys(tag, 0);
-        let from = spender.fvk.address_at(0u32, orchard::keys::Scope::External);
-        let notes: Vec<orchard::Note> = u64s(in_v).iter().map(|v| orchard_note(rng, from, *v, version)).collect();
-        let leaves: Vec<MerkleHashOrchard> = notes.iter().map(orchard_leaf).collect();
-        let decoy_addr = orchard_keys(tag + 1, 0).fvk.address_at(0u32, orchard::keys::Scope::External);
-        let decoys: Vec<MerkleHashOrchard> =
-            (0..8).map(|i| orchard_leaf(&orchard_note(rng, decoy_addr, 9 + i as u64, version))).collect();
-        let (root, paths) = tree_with(|i| decoys[i % 8].clone(), 3, &leaves);
+    let pool = |f: &'static OrchardFix, tag: char, version: orchard::note::NoteVersion, in_v: &J, out_v: &J, chg_v: Option<&J>, rng: &mut ChaCha20Rng| {
+        let notes: Vec<orchard::Note> = u64s(in_v).iter().map(|v| orchard_note(rng, f.from, *v, version)).collect();
+        let (root, paths) = if notes.is_empty() {
+            (f.empty_root.clone(), vec![])
+        } else {
+            let leaves: Vec<MerkleHashOrchard> = notes.iter().map(orchard_leaf).collect();
+            checked_tree(cross_check, |i| f.decoys[i % 8].clone(), 3, &leaves)
+        };
         let spends: Vec<(orchard::Note, orchard::tree::MerklePath)> = notes.into_iter().zip(paths.into_iter().map(|p| p.into())).collect();
         let outs: Vec<_> = u64s(out_v)
             .iter()
             .enumerate()
-            .map(|(j, v)| {
-                let k = orchard_keys(tag + 2, j);
-                ShOut {
-                    addr: k.fvk.address_at(j as u32, orchard::keys::Scope::External),
-                    ivk: orchard::keys::PreparedIncomingViewingKey::new(&k.fvk.to_ivk(orchard::keys::Scope::External)),
-                    value: *v,
-                    memo: memo_for(tag as char, j, *v),
-                }
-            })
+            .map(|(j, v)| ShOut { addr: f.recips[j].0, ivk: &f.recips[j].1, value: *v, memo: memo_for(tag, j, *v) })
             .collect();
         let chg: Vec<_> = chg_v
             .map(|c| {
                 u64s(c)
                     .iter()
                     .enumerate()
-                    .map(|(j, v)| ShOut {
-                        addr: spender.fvk.address_at(7 + j as u32, orchard::keys::Scope::Internal),
-                        ivk: orchard::keys::PreparedIncomingViewingKey::new(&spender.fvk.to_ivk(orchard::keys::Scope::Internal)),
-                        value: *v,
-                        memo: memo_for('c', j, *v),
-                    })
+                    .map(|(j, v)| ShOut { addr: f.change[j], ivk: &f.internal_ivk, value: *v, memo: memo_for('c', j, *v) })
                     .collect()
             })
             .unwrap_or_default();
-        (spender, spends, orchard::Anchor::from(root), outs, chg)
+        (&f.spender, spends, orchard::Anchor::from(root), outs, chg)
     };
     let (o_spender, o_spends, o_anchor, o_outs, o_chg) =
-        pool(b'o', orchard::note::NoteVersion::V2, &q["oInV"], &q["oOutV"], Some(&q["oChgV"]), rng);
-    let (i_spender, i_spends, i_anchor, i_outs, _) = pool(b'i', orchard::note::NoteVersion::V3, &q["iInV"], &q["iOutV"], None, rng);
+        pool(&fx.o, 'o', orchard::note::NoteVersion::V2, &q["oInV"], &q["oOutV"], Some(&q["oChgV"]), rng);
+    let (i_spender, i_spends, i_anchor, i_outs, _) = pool(&fx.i, 'i', orchard::note::NoteVersion::V3, &q["iInV"], &q["iOutV"], None, rng);
 
     Mat {
         height,
@@ -697,7 +773,7 @@ fn zip212_of(m: &Mat) -> sapling::note_encryption::Zip212Enforcement {
 }
 
 fn sapling_recips(m: &Mat) -> Vec<Recip<'_, sapling::keys::PreparedIncomingViewingKey>> {
-    m.s_outs.iter().map(|o| Recip { ivk: &o.ivk, addr: o.addr.to_bytes().to_vec(), value: o.value, memo: *o.memo.as_array() }).collect()
+    m.s_outs.iter().map(|o| Recip { ivk: o.ivk, addr: o.addr.to_bytes().to_vec(), value: o.value, memo: *o.memo.as_array() }).collect()
 }
 
 fn orchard_recips<'a>(
@@ -706,7 +782,7 @@ fn orchard_recips<'a>(
 ) -> Vec<Recip<'a, orchard::keys::PreparedIncomingViewingKey>> {
     outs.iter()
         .chain(chg.iter())
-        .map(|o| Recip { ivk: &o.ivk, addr: o.addr.to_raw_address_bytes().to_vec(), value: o.value, memo: *o.memo.as_array() })
+        .map(|o| Recip { ivk: o.ivk, addr: o.addr.to_raw_address_bytes().to_vec(), value: o.value, memo: *o.memo.as_array() })
         .collect()
 }
 
@@ -1282,6 +1358,9 @@ impl Stats {
     fn inc(&mut self, k: &str) {
         *self.counts.entry(k.to_string()).or_insert(0) += 1;
     }
+    fn time(&mut self, k: &str, since: std::time::Instant) {
+        *self.counts.entry(format!("us:{k}")).or_insert(0) += since.elapsed().as_micros() as u64;
+    }
 }
 
 struct Opts {
@@ -1311,7 +1390,9 @@ where
     let (q, x) = (&case["q"], &case["x"]);
     let mut errs: Vec<String> = vec![];
     let mut rng = ChaCha20Rng::seed_from_u64(opts.seed.wrapping_mul(0x9E37_79B9_7F4A_7C15) ^ (idx as u64));
-    let m = materialise(q, &mut rng);
+    let t0 = std::time::Instant::now();
+    let m = materialise(q, &mut rng, idx % 64 == 0);
+    st.time("materialise", t0);
     let slice = q["slice"].as_str().unwrap();
     st.inc(&format!("slice:{slice}"));
     st.inc(&format!("spec:{}", x["k"].as_str().unwrap()));
@@ -1347,7 +1428,10 @@ where
 
     // ---- build_for_pczt ----------------------------------------------------------------------
     let prng = ChaCha20Rng::seed_from_u64(rng.next_u64());
+    let t0 = std::time::Instant::now();
     let (o, res) = outcome_of(guarded(|| b.build_for_pczt(prng, rule)));
+    st.time("build_for_pczt", t0);
+    let t0 = std::time::Instant::now();
     st.inc(&format!("pczt:{}", o["k"].as_str().unwrap().split(':').next().unwrap()));
     if let Some(e) = judge_outcome(x, "pczt", &o) {
         errs.push(e);
@@ -1359,6 +1443,8 @@ where
         }
     }
     st.sigs.insert(format!("pczt|{}|{}|{}|{}|{}|{}", q["regime"], x["ver"], x["shape"], o["k"], q["opad"], q["ipad"]));
+    st.time("pczt_checks", t0);
+    let t0 = std::time::Instant::now();
 
     // ---- build -------------------------------------------------------------------------------
     let sh = &x["shape"];
@@ -1390,11 +1476,14 @@ where
         }
     }
 
+    st.time("build_path", t0);
+    let t0 = std::time::Instant::now();
     // ---- DeferredPcztBuilder (anchors deferred, ZIP 374): Orchard/Ironwood-only requests ---------
     let only_oi = m.tin.is_empty() && m.tout.is_empty() && m.s_spends.is_empty() && m.s_outs.is_empty();
     if only_oi && q["pv"] == "none" && !q["anch"]["s"].as_bool().unwrap() {
         errs.extend(run_deferred(q, x, &m, rule, &mut rng, st));
     }
+    st.time("deferred_path", t0);
     errs
 }
 
